@@ -85,6 +85,9 @@ func fuzzBody(k int, rng func(string) uint64, addr string) (string, string) {
 
 func (apifuzz) Generate(rng *Rand, prop, tier string) *Script {
 	s := &Script{Engine: "apifuzz", Prop: prop, Cfg: map[string]int64{}}
+	if rng.Bool(50) {
+		s.Cfg["jitter"] = int64([]int{20, 100, 400}[rng.Intn(3)]) // microseconds of simulated time before lock requests
+	}
 	if rng.Bool(55) {
 		s.Cfg["mode"] = 0 // replica
 		s.Cfg["blocks"] = int64(rng.Range(4, 10))
@@ -316,6 +319,7 @@ func (fr *fzRun) runReplica() {
 	s := fr.s
 	w := simrt.NewWorld(s.Seed, synctest.Wait)
 	w.StrictLocks = os.Getenv("VERIF_LOOSE_LOCKS") == ""
+	w.LockJitter = time.Duration(s.Cfg["jitter"]) * time.Microsecond
 	w.TraceOn = os.Getenv("VERIF_TRACE") != ""
 	defer w.Close()
 	fr.w = w
@@ -441,6 +445,7 @@ func (fr *fzRun) runController() {
 	s := fr.s
 	w := simrt.NewWorld(s.Seed, synctest.Wait)
 	w.StrictLocks = os.Getenv("VERIF_LOOSE_LOCKS") == ""
+	w.LockJitter = time.Duration(s.Cfg["jitter"]) * time.Microsecond
 	w.TraceOn = os.Getenv("VERIF_TRACE") != ""
 	defer w.Close()
 	fr.w = w
